@@ -270,8 +270,8 @@ func (d *driver) mutations(stack, kind string, base []byte, variants int) {
 	r := d.r
 	n := len(base)
 	limit := n
-	if limit > 400 {
-		limit = 400
+	if limit > 260 {
+		limit = 260
 	}
 	// every truncation
 	for i := 0; i < limit; i++ {
@@ -360,9 +360,9 @@ func (d *driver) generated(budget int) {
 		for _, kind := range kindsOf(stack) {
 			hello := kind == "clientHello" || kind == "serverHello"
 			// (1) fields
-			nf := 700 * budget
+			nf := 1500 * budget
 			if hello {
-				nf = 2500 * budget
+				nf = 4000 * budget
 			}
 			var bases [][]byte
 			var typ byte
@@ -371,7 +371,7 @@ func (d *driver) generated(budget int) {
 				m := d.fields(stack, kind, loose)
 				d.enc(stack, kind, m)
 				if !loose && len(bases) < 64 {
-					if data, err := marshal(stack, kind, m); err == nil && len(data) < 700 {
+					if data, err := marshal(stack, kind, m); err == nil && len(data) < 260 {
 						if _, ok := unmarshal(stack, kind, append([]byte(nil), data...)); ok {
 							bases = append(bases, data)
 							typ = data[0]
@@ -380,14 +380,14 @@ func (d *driver) generated(budget int) {
 				}
 			}
 			// (2) bytes
-			nb := 2 * budget
+			nb := 4 * budget
 			if hello {
-				nb = 5 * budget
+				nb = 6 * budget
 			}
 			for i := 0; i < nb && i < len(bases); i++ {
-				d.mutations(stack, kind, bases[len(bases)-1-i], 5)
+				d.mutations(stack, kind, bases[len(bases)-1-i], 6)
 			}
-			nr := 600 * budget
+			nr := 2000 * budget
 			for i := 0; i < nr; i++ {
 				d.dec(stack, kind, d.randomBytes(stack, kind, typ))
 			}
